@@ -126,7 +126,104 @@ def gen_cases(ctx):
             else:
                 lines.append("dict")
         cases.append(("random %s-seq" % kind, lines))
-    cases += static_cases(ctx) + applied_cases(ctx) + derive_cases(ctx)
+    cases += static_cases(ctx) + applied_cases(ctx) + derive_cases(ctx) + stage_cases(ctx)
+    return cases
+
+
+def stage_cases(ctx):
+    """what "mid-frame" / "between frames" means for every way a compression frame can begin and end (the set / reset / dictionary / struct /
+    parameter-object gates of one context, heap and static):
+      * a frame that is begun AND completed by one call of ZSTD_compressSequences (`seqframe`) leaves the context between frames, like
+        ZSTD_compress2 and a ZSTD_compressStream2(ZSTD_e_end) that returns 0: everything legal before it is legal after it, the next frame
+        of any entry point starts clean; a call that fails after it began the frame leaves the context mid-frame (session reset required);
+      * input accepted with ZSTD_e_continue in stable-input mode (`sstart`: reported consumed, compression deferred) begins the frame:
+        every parameter x value, and every init-stage-only entry point, is gated exactly as after a `start` that produced a header."""
+    cps = ctx.gen["cps"]
+    rng = ctx.rng
+    byid = {p["id"]: p for p in cps}
+    good = [byid[i]["lo"] + 1 for i in CP_IDS]
+    cases = []
+    for kind in "cs":
+        for p in cps:
+            for v in grid_values(p):
+                st = "set %d %d" % (p["id"], v)
+                big = p["id"] in BIG and v > BIG[p["id"]]
+                # after a complete one-call frame: fresh-context behaviour; and under the value in force, following frames of every entry point
+                cases.append(("grid after-seqframe", ["new " + kind, "seqframe 1000 0", st, "reset 2", "seqframe 0 0", st] +
+                              ([] if big else ["seqframe 1000 0", "frame 5000", "seqframe 1 0", "end", st]) + ["seqframe 700 1", st, "reset 1", st]))
+                # deferred stable input: the frame has begun
+                if p["id"] != 1006:
+                    cases.append(("grid stable-deferred", ["new " + kind, "set 1006 1", "sstart 1000", st, "reset 1" if big else "end", st]))
+                else:
+                    cases.append(("grid stable-deferred", ["new " + kind, "set 1006 1", "sstart 1000", st, "sstart 2000", "end", st]))
+        for n in (1, 1000, 60000):
+            for gate in ("reset 2", "dict", "papply", "pledge", "prefix", "cdict", "setfparams 0 1 1", "setcparams " + " ".join(map(str, good)),
+                         "setparams %s 1 1 0" % " ".join(map(str, good))):
+                if gate == "dict" and kind == "s":
+                    continue      # a static context cannot allocate the copy of a dictionary (memory_allocation, whatever the stage)
+                cases.append(("gates stable-deferred", ["new " + kind, "pset 201 1", "set 1006 1", "sstart %d" % n, gate, "sstart 100", gate, "end", gate, "frame 100"]))
+                cases.append(("gates stable-deferred", ["new " + kind, "set 1006 1", "sstart %d" % n, "start", gate, "sstart %d" % n, "end", gate, "sstart 5", "reset 1", gate]))
+                cases.append(("gates after-seqframe", ["new " + kind, "pset 201 1", "seqframe %d 0" % n, gate, "frame 5000", "seqframe 10 1", gate, "reset 1", gate, "seqframe 0 0", "start", gate, "end"]))
+        for d in (0, 1):
+            cases.append(("gates after-seqframe", ["new " + kind, "set 1008 %d" % d, "seqframe 1000 0", "set 201 1", "seqframe 1000 0", "seqframe 0 0", "frame 100", "start", "end", "seqframe 5 0", "applied 3000",
+                                                   "seqframe 1000 0", "c2 100000", "seqframe 1000 0", "simple 100 3", "seqframe 3 1", "reset 3", "seqframe 1000 0", "dict" if kind == "c" else "cdict", "seqframe 1000 0", "prefix", "seqframe 8 0"]))
+    gates = ["reset 2", "dict", "papply", "pledge", "prefix", "cdict"]
+    gates_static = [g for g in gates if g != "dict"]
+    nseq = 120 if ctx.quick() else 3000
+    for _ in range(nseq):
+        kind = rng.choice("ccs")
+        lines = ["new " + kind]
+        if rng.random() < 0.7:
+            lines.append("set 1006 1")
+        started = False
+        nstable = 0
+        for _ in range(rng.randint(3, 25)):
+            k = rng.random()
+            if started and (0.40 <= k < 0.50 or 0.60 <= k < 0.66 or 0.84 <= k < 0.90):
+                k = 0.80      # whole-frame entry points must not be called in the middle of a streaming frame (API misuse): finish it
+            if k < 0.30:
+                p = rng.choice(cps)
+                v = rng.choice(grid_values(p) + [rng.randint(p["lo"], p["hi"])])
+                if p["id"] in BIG and v > BIG[p["id"]]:
+                    v = BIG[p["id"]]
+                if p["id"] == 1007 and v == 1:
+                    v = 0      # stable OUTPUT imposes obligations the scripted frames do not meet (stable INPUT is honoured by the harness)
+                if p["id"] == 400 and v > 4:
+                    v = rng.randint(0, 4)
+                lines.append("set %d %d" % (p["id"], v))
+            elif k < 0.34:
+                lines.append("set 1006 %d" % rng.randint(0, 1))
+            elif k < 0.40:
+                lines.append(rng.choice(gates if kind == "c" else gates_static))
+            elif k < 0.50:
+                lines.append("seqframe %d %d" % (rng.choice([0, 1, 100, 1000]), int(rng.random() < 0.15)))
+                if lines[-1].endswith(" 1"):
+                    # the call failed after it began the frame: mid-frame gates apply, and only a session reset re-opens the context
+                    if rng.random() < 0.7:
+                        p = rng.choice(cps)
+                        lines.append(rng.choice((gates if kind == "c" else gates_static) + ["set %d %d" % (p["id"], p["dflt"])]))
+                    lines.append("reset %d" % rng.choice([1, 3]))
+            elif k < 0.60 and nstable < 8:
+                lines.append("sstart %d" % rng.choice([1, 100, 1000, 5000])); started = True; nstable += 1
+            elif k < 0.63:
+                lines.append("simple %d %d" % (rng.choice([0, 100, 5000]), rng.randint(-5, 19)))
+            elif k < 0.66:
+                lines.append("applied %d" % rng.choice([0, 100, 5000]))
+            elif k < 0.70:
+                lines.append(struct_setter(rng, cps) if rng.random() < 0.5 else "pset %d %d" % (201, rng.randint(0, 1)))
+            elif k < 0.76:
+                lines.append("start"); started = True
+            elif k < 0.84:
+                lines.append("end"); started = False
+            elif k < 0.90:
+                lines.append("frame %d" % rng.choice([0, 1, 100, 5000, 60000])); started = False
+            else:
+                r = rng.randint(1, 3)
+                lines.append("reset %d" % r)
+                if r != 2:
+                    started = False
+        lines.append("end")
+        cases.append(("random stage c-seq", lines))
     return cases
 
 
@@ -332,6 +429,8 @@ def monitor(ctx, lines, couts):
     static = False
     par_workers = 0          # worker count held by the separate ZSTD_CCtx_params object (pset 400 v accepted)
     applied_seen = {}
+    unsure = False           # a frame operation failed unexpectedly: the context may be mid-frame until the next session reset
+    after_seqframe = False   # the previous operation was a successful whole frame through ZSTD_compressSequences
     if lines and lines[0].startswith("derive"):
         return monitor_derive(ctx, lines, couts)
     for ln, out in zip(lines, couts):
@@ -340,9 +439,14 @@ def monitor(ctx, lines, couts):
             return "harness produced no state dump for %r: %r" % (ln, out)
         status, _, vals = out.partition(" |")
         vals = vals.split()
+        was_after_seqframe, after_seqframe = after_seqframe, False
+        if kind == "c" and was_after_seqframe and w[0] in ("frame", "end", "start", "sstart", "seqframe", "applied", "simple") and status.startswith("err") and not (w[0] == "seqframe" and w[2] == "1"):
+            return "%s failed (%s) right after a complete, successful ZSTD_compressSequences frame (the context did not return to the init stage: stale pledged size / stage)" % (ln, status)
+        if kind == "c" and w[0] in ("start", "sstart", "end", "frame", "simple", "applied") and status.startswith("err"):
+            unsure = True
         if w[0] == "new":
             kind = w[1]; static = kind in "st"; kind = {"s": "c", "t": "d"}.get(kind, kind)
-            ps = dps if kind == "d" else cps; started = False; par_workers = 0
+            ps = dps if kind == "d" else cps; started = False; par_workers = 0; unsure = False
             defaults = [str(p["dflt"]) for p in ps]
             if vals != defaults:
                 return "fresh object does not read back the defaults"
@@ -361,6 +465,8 @@ def monitor(ctx, lines, couts):
                     return "static CCtx: set(ZSTD_c_nbWorkers,%d) -> %s, reads back %s (a worker count must be refused by the setter with parameter_unsupported: static contexts cannot run workers)" % (v, status, vals[i])
                 if static and kind == "d" and pid == 1003 and v == 1 and status.startswith("ok"):
                     return "static DCtx: set(ZSTD_d_refMultipleDDicts,1) accepted (the DDict table cannot be allocated by a static context)"
+                if status == "err:stage" and kind == "c" and not started and not unsure:
+                    return "set(%s,%d) refused with stage_wrong although no frame is in progress (the previous frame is complete / nothing was started)" % (p["name"], v)
                 if status.startswith("err"):
                     if vals != prev:
                         return "rejected set(%s,%d) changed the state" % (p["name"], v)
@@ -378,6 +484,26 @@ def monitor(ctx, lines, couts):
         elif w[0] in ("setcparams", "setfparams", "setparams"):
             if status.startswith("err") and vals != prev:
                 return "rejected %s changed the state (all-or-nothing contract of the struct-level setters)" % w[0]
+            if status.startswith("ok") and started:
+                return "%s accepted mid-frame (window log / frame parameters are not update-authorised)" % w[0]
+            if status == "err:stage" and not started and not unsure:
+                return "%s refused with stage_wrong although no frame is in progress" % w[0]
+        elif w[0] in ("dict", "pledge", "prefix", "cdict") and kind == "c":
+            what = {"dict": "ZSTD_CCtx_loadDictionary", "pledge": "ZSTD_CCtx_setPledgedSrcSize", "prefix": "ZSTD_CCtx_refPrefix", "cdict": "ZSTD_CCtx_refCDict"}[w[0]]
+            if status.startswith("ok") and started:
+                return "%s accepted mid-frame (input has already been accepted for the frame in progress)" % what
+            if status == "err:stage" and not started and not unsure:
+                return "%s refused with stage_wrong although no frame is in progress" % what
+        elif w[0] == "sstart" and kind == "c":
+            if status == "ok":
+                started = True
+        elif w[0] == "seqframe" and kind == "c":
+            if status.startswith("ok"):
+                started = False; after_seqframe = True
+            elif w[2] == "1":
+                started = True      # failed after the frame was begun: like ZSTD_compress2, the context stays mid-frame
+            else:
+                return "ZSTD_compressSequences of %s literal bytes failed (%s) with an accepted parameter state" % (w[1], status)
         elif w[0] == "dframe":
             started = False        # the harness resets the session before and after the frame
             idx = [i for i, p in enumerate(ps) if p["id"] == 1002]
@@ -435,13 +561,15 @@ def monitor(ctx, lines, couts):
                     return "parameter reset did not restore every default"
             if r == 2 and started and status == "ok" and kind != "p":
                 return "parameter reset accepted mid-frame"
+            if r == 2 and kind == "c" and status == "err:stage" and not started and not unsure:
+                return "parameter reset refused with stage_wrong although no frame is in progress"
             if r in (1, 3):
-                started = False
+                started = False; unsure = False
             if r == 1 and vals != prev:
                 return "session-only reset changed a parameter"
         if w[0] == "c2":
             started = status != "ok"
-        if w[0] in ("start", "end", "frame", "simple", "dict", "c2", "dframe", "applied") and prev is not None and vals != prev:
+        if w[0] in ("start", "end", "frame", "simple", "dict", "c2", "dframe", "applied", "sstart", "seqframe", "pledge", "prefix", "cdict") and prev is not None and vals != prev:
             return "%s changed a stored parameter" % w[0]
         prev = vals
     return None
@@ -528,7 +656,7 @@ def correspondence(ctx):
     sets = {ln for tag, ls in cases for ln in ls if ln.startswith("set")}
     return dict(evaluations=len(lines), distinct_nontrivial=distinct,
                 rule="exhaustive grid: every parameter (regenerated from zstd.h) x {lo-1,lo,lo+1,0,default,hi-1,hi,hi+1,INT_MIN,INT_MAX,1,2,5,-1} x "
-                     "{fresh, mid-frame, after error, after each reset kind} x {CCtx, CCtx_params, DCtx, static CCtx, static DCtx} + random op sequences; "
+                     "{fresh, mid-frame, after error, after each reset kind, after a whole ZSTD_compressSequences frame, after deferred stable input} x {CCtx, CCtx_params, DCtx, static CCtx, static DCtx} + random op sequences; "
                      "compression parameters applied to following frames (every parameter x value, level x parameter pairs); raw-level entry points "
                      "(getCParams/getParams/compressCCtx/compress_usingDict/compressBegin[_usingDict]/createCDict[_byReference]/CCtxParams_init/initCStream) x levels "
                      "{INT_MIN .. lo-1, lo .. hi, hi+1 .. INT_MAX} x source sizes around the table tiers x dictionary sizes; a case is distinct by its op list; "
